@@ -11,6 +11,7 @@ import (
 	"time"
 
 	"github.com/specterops/dawgs/cardinality"
+	"github.com/specterops/dawgs/graph"
 )
 
 func run[T uint32 | uint64](seed uint64, round int, mk func() cardinality.Duplex[T]) int {
@@ -62,6 +63,45 @@ func run[T uint32 | uint64](seed uint64, round int, mk func() cardinality.Duplex
 	return ops
 }
 
+// runKB: graph.ThreadSafeKindBitmap under concurrent callers.
+func runKB(seed uint64, round int) int {
+	kb := graph.NewThreadSafeKindBitmap()
+	kinds := []graph.Kind{graph.StringKind("User"), graph.StringKind("Group"), graph.StringKind("Computer")}
+	vals := []uint64{0, 1, 2, 65535, 65536, 1 << 32, 1<<40 + 3}
+	r := rand.New(rand.NewPCG(seed, uint64(round)))
+	var wg sync.WaitGroup
+	ops := 0
+	for g := 0; g < 2+r.IntN(5); g++ {
+		gr := rand.New(rand.NewPCG(seed+uint64(g)+1, uint64(round)))
+		wg.Add(1)
+		go func() {
+			defer wg.Done()
+			for i := 0; i < 150; i++ {
+				k, v := kinds[gr.IntN(3)], vals[gr.IntN(len(vals))]
+				switch gr.IntN(8) {
+				case 0, 1:
+					kb.Add(k, v)
+				case 2:
+					kb.CheckedAdd(k, v)
+				case 3:
+					kb.Contains(k, v)
+				case 4:
+					kb.Or(k, cardinality.NewBitmap64With(v, v+1))
+				case 5:
+					kb.Cardinality(k)
+				case 6:
+					kb.Get().Slice()
+				default:
+					kb.Clone().Add(k, v)
+				}
+			}
+		}()
+		ops += 150
+	}
+	wg.Wait()
+	return ops
+}
+
 func TestRace(t *testing.T) {
 	seed, _ := strconv.ParseUint(os.Getenv("VERIF_SEED"), 10, 64)
 	budget, err := strconv.ParseFloat(os.Getenv("VERIF_BUDGET_S"), 64)
@@ -80,7 +120,9 @@ func TestRace(t *testing.T) {
 		}
 	}()
 	for time.Since(t0).Seconds() < budget {
-		if rounds%2 == 0 {
+		if rounds%3 == 2 {
+			ops += runKB(seed, rounds)
+		} else if rounds%2 == 0 {
 			ops += run[uint64](seed, rounds, cardinality.NewBitmap64)
 		} else {
 			ops += run[uint32](seed, rounds, cardinality.NewBitmap32)
@@ -89,7 +131,7 @@ func TestRace(t *testing.T) {
 	}
 	close(done)
 	if out := os.Getenv("VERIF_OUT"); out != "" {
-		b, _ := json.Marshal(map[string]any{"rounds": rounds, "operations": ops, "wall_s": time.Since(t0).Seconds(), "detector": "go -race", "code": "un-instrumented cardinality wrappers, real goroutines"})
+		b, _ := json.Marshal(map[string]any{"rounds": rounds, "operations": ops, "wall_s": time.Since(t0).Seconds(), "detector": "go -race", "code": "un-instrumented cardinality wrappers and graph.ThreadSafeKindBitmap, real goroutines"})
 		os.WriteFile(out, b, 0o644)
 	}
 }
